@@ -211,8 +211,8 @@ def roc_with_ci(
     fpr_ci = joint_ci[1]
 
     # Rule-of-three correction for FNR and FPR being 0. or 1.
-    fnr_ci = _apply_rule_of_three(p=fnr, ci=fnr_ci, alpha=alpha, n=len(scores.pos))
-    fpr_ci = _apply_rule_of_three(p=fpr, ci=fpr_ci, alpha=alpha, n=len(scores.neg))
+    fnr_ci = _apply_rule_of_three(p=fnr, ci=fnr_ci, alpha=alpha, n=scores.nb_all_pos)
+    fpr_ci = _apply_rule_of_three(p=fpr, ci=fpr_ci, alpha=alpha, n=scores.nb_all_neg)
 
     # Here the magic happens, and we aggregate 1D CIs to a 2D confidence band.
     fpr_band = _aggregate_rectangles(fnr, fnr_ci, fpr_ci)
